@@ -21,7 +21,11 @@ from wbgen import a1
 
 NAME = 'clocksim'
 # probes that count as injected disturbances (reported under faults_fired in the evidence)
-FAULT_PROBES = ('env_calendar_firstweekday_changed', 'env_decimal_context_changed', 'env_warnings_filter_changed', 'env_root_logger_level_changed', 'clock_stepped_backward', 'tz_changed', 'dst_transition_crossed', 'midnight_crossed_inside_one_evaluation', 'midnight_crossed_between_two_queries', 'month_length_class_changed', 'override_between_two_instants')
+FAULT_PROBES = ('env_calendar_firstweekday_changed', 'env_decimal_context_changed', 'env_warnings_filter_changed', 'env_root_logger_level_changed',
+                'switched_between_fixed_offset_and_dst_rule_zone',
+                'override_between_two_instants', 'caller_changed_passed_cell_objects_afterwards')
+# (jumps forward and backward, zone changes, DST transitions, month ends and midnights - between two queries or inside one evaluation -
+# are the ordinary workload of a timeline, not disturbances: they are reported as probes only)
 NEEDS_REF = True       # invariance mode asks a foreign process (other hash seed) for the same cells once per run
 WB_PATH = '/simfs/clock.xlsx'
 EPOCH = datetime.datetime(1970, 1, 1)
